@@ -1,2 +1,124 @@
-(* Lemmas about the machine of Model/Run.v shared by C01, C02, C03, C05. *)
+(* Lemmas about the machine of Model/Run.v shared by C01, C02, C03, C05: what each step does
+   to the control part of the state (log, caught exceptions, cleanup stack, force flag, result
+   events), and the characterisation of a whole run by the declarative reading of Spec/Run.v. *)
 From TT Require Import Lib.Base Gen.Handlers Model.Run Spec.Run.
+
+(* ------------------------------------------------------------------ *)
+(* steps that touch only details, cells, traceback counter             *)
+(* ------------------------------------------------------------------ *)
+Record quiet (s s' : st) : Prop := {
+  q_log : log s' = log s;
+  q_excs : excs s' = excs s;
+  q_stack : stack s' = stack s;
+  q_attrs : attrs s' = attrs s;
+  q_force : force s' = force s;
+  q_onexc : onexc s' = onexc s;
+  q_tr : tr s' = tr s }.
+
+Lemma quiet_refl s : quiet s s.
+Proof. constructor; reflexivity. Qed.
+Lemma quiet_trans a b c : quiet a b -> quiet b c -> quiet a c.
+Proof. intros [] []; constructor; congruence. Qed.
+
+Lemma quiet_fold {A} (f : st -> A -> st) :
+  (forall s a, quiet s (f s a)) -> forall l s, quiet s (fold_left f l s).
+Proof.
+  intros H l; induction l as [|a r IH]; intros s; simpl; [apply quiet_refl|].
+  eapply quiet_trans; [apply H | apply IH].
+Qed.
+
+Lemma quiet_add_detail n c s : quiet s (add_detail n c s).
+Proof. constructor; reflexivity. Qed.
+Lemma quiet_add_detail_unique n c s : quiet s (add_detail_unique n c s).
+Proof. apply quiet_add_detail. Qed.
+Lemma quiet_add_mismatch mm s : quiet s (add_mismatch mm s).
+Proof. unfold add_mismatch. apply quiet_fold. intros; apply quiet_add_detail_unique. Qed.
+Lemma quiet_gather src s : quiet s (gather src s).
+Proof. unfold gather. apply quiet_fold. intros; apply quiet_add_detail. Qed.
+Lemma quiet_report_traceback s : quiet s (report_traceback s).
+Proof.
+  unfold report_traceback. destruct (tb_label _ _ _ _) as [lab nxt].
+  eapply quiet_trans; [|apply quiet_add_detail]. constructor; reflexivity.
+Qed.
+
+(* ------------------------------------------------------------------ *)
+(* the result events other than handler calls                          *)
+(* ------------------------------------------------------------------ *)
+Definition is_call (e : tev) : bool := match e with THandler _ _ => false | _ => true end.
+Definition calls (t : list tev) : list tev := filter is_call t.
+
+Lemma calls_app a b : calls (a ++ b) = calls a ++ calls b.
+Proof. apply filter_app. Qed.
+Lemma calls_handlers (f : nat -> tev) l : (forall h, is_call (f h) = false) -> calls (map f l) = [].
+Proof. intros H. induction l as [|x r IH]; simpl; [reflexivity|]. rewrite H. exact IH. Qed.
+
+(* ------------------------------------------------------------------ *)
+(* flatten never yields nothing (the repair of F3)                      *)
+(* ------------------------------------------------------------------ *)
+Section exc_ind'.
+  Variable P : exc -> Prop.
+  Hypothesis HE : forall c a, P (Exc c a).
+  Hypothesis HM : forall l, Forall P l -> P (Multi l).
+  Fixpoint exc_ind' (e : exc) : P e :=
+    match e with
+    | Exc c a => HE c a
+    | Multi l => HM l ((fix go (l : list exc) : Forall P l :=
+                          match l with [] => Forall_nil _ | x :: r => Forall_cons x (exc_ind' x) (go r) end) l)
+    end.
+End exc_ind'.
+
+Definition flatten_list (l : list exc) : list exc := flat_map flatten l.
+Lemma flatten_multi x r : flatten (Multi (x :: r)) = flatten x ++ flatten_list r.
+Proof.
+  unfold flatten_list. change (flatten (Multi (x :: r))) with
+    (flatten x ++ (fix go (l : list exc) : list exc := match l with [] => [] | y :: q => flatten y ++ go q end) r).
+  f_equal. induction r as [|y q IH]; simpl; [reflexivity|]. now rewrite IH.
+Qed.
+
+Lemma flatten_nonempty e : flatten e <> [].
+Proof.
+  induction e as [c a | l IH] using exc_ind'; [discriminate|].
+  destruct l as [|x r]; [discriminate|]. rewrite flatten_multi.
+  inversion IH as [|? ? Hx _]; subst. intro E. apply app_eq_nil in E. destruct E as [E _]. exact (Hx E).
+Qed.
+
+Lemma caught_nonempty r : caught r = [] <-> r = None.
+Proof.
+  destruct r as [e|]; simpl; split; intro H; try reflexivity; try discriminate.
+  exfalso; exact (flatten_nonempty e H).
+Qed.
+
+(* ------------------------------------------------------------------ *)
+(* _got_user_exception                                                  *)
+(* ------------------------------------------------------------------ *)
+Lemma on_exception_spec e s :
+  let s' := on_exception e s in
+  log s' = log s /\ excs s' = excs s /\ stack s' = stack s /\ attrs s' = attrs s /\ force s' = force s
+  /\ onexc s' = onexc s /\ calls (tr s') = calls (tr s).
+Proof.
+  unfold on_exception.
+  assert (Q : quiet s (if no_traceback (cls_of e) then s else report_traceback s)).
+  { destruct (no_traceback _); [apply quiet_refl | apply quiet_report_traceback]. }
+  destruct Q as [Q1 Q2 Q3 Q4 Q5 Q6 Q7]. simpl. repeat split; try assumption.
+  rewrite calls_app, calls_handlers by reflexivity. rewrite app_nil_r. now rewrite Q7.
+Qed.
+
+Lemma got_exception_gen l : forall s,
+  let s' := fold_left (fun s x => let s1 := on_exception x s in set_excs (excs s1 ++ [x]) s1) l s in
+  log s' = log s /\ excs s' = excs s ++ l /\ stack s' = stack s /\ attrs s' = attrs s /\ force s' = force s
+  /\ onexc s' = onexc s /\ calls (tr s') = calls (tr s).
+Proof.
+  induction l as [|x r IH]; intros s; simpl.
+  - rewrite app_nil_r. repeat split.
+  - specialize (IH (set_excs (excs (on_exception x s) ++ [x]) (on_exception x s))). simpl in IH.
+    destruct IH as (I1 & I2 & I3 & I4 & I5 & I6 & I7).
+    destruct (on_exception_spec x s) as (O1 & O2 & O3 & O4 & O5 & O6 & O7).
+    repeat split; try congruence.
+    rewrite I2, O2, <- app_assoc. reflexivity.
+Qed.
+
+Lemma got_exception_spec e s :
+  let s' := got_exception e s in
+  log s' = log s /\ excs s' = excs s ++ flatten e /\ stack s' = stack s /\ attrs s' = attrs s
+  /\ force s' = force s /\ onexc s' = onexc s /\ calls (tr s') = calls (tr s).
+Proof. apply got_exception_gen. Qed.
